@@ -19,6 +19,12 @@ deriving Repr, DecidableEq
 def arraySplitChunksize {α : Type} (xs : List α) (c : Int) : Except Err (List (List α)) :=
   if c < 1 then .error .valueErr else .ok (splitChunk c.toNat xs)
 
+/-- `np.array_split(x, n_pool)`: `TypeError` for `n_pool = None`, `ValueError` for 0 sections -/
+def splitPool {α : Type} (nPool : Option Nat) (xs : List α) : Except Err (List (List α)) :=
+  match nPool with
+  | some n => if n = 0 then .error .valueErr else .ok (splitN n xs)
+  | none => .error .typeErr
+
 /-- The batches the user function is called with (each inner list is one call). -/
 def batchCalls {α : Type} (vectorised : Bool) (chunk : Option Int) (pool : Bool)
     (nPool : Option Nat) (xs : List α) : Except Err (List (List α)) :=
@@ -32,16 +38,15 @@ def batchCalls {α : Type} (vectorised : Bool) (chunk : Option Int) (pool : Bool
     if vectorised then
       match chunk with
       | some c =>
-        if c == 0 then
-          match nPool with
-          | some n => if n = 0 then .error .valueErr else .ok (splitN n xs)
-          | none => .error .typeErr
+        if c == 0 then splitPool nPool xs
         else arraySplitChunksize xs c
-      | none =>
-        match nPool with
-        | some n => if n = 0 then .error .valueErr else .ok (splitN n xs)
-        | none => .error .typeErr
+      | none => splitPool nPool xs
     else .ok (xs.map fun x => [x])
+
+/-- the batches of a call together with whether they go through `pool.map` (target of the generated dispatch tree) -/
+def tagCalls {α : Type} (pooled : Bool) : Except Err (List (List α)) → Except Err (Bool × List (List α))
+  | .ok cs => .ok (pooled, cs)
+  | .error e => .error e
 
 /-- `batch_evaluate_function`: the concatenated outputs. -/
 def batchEval {α β : Type} (F : List α → List β) (f : α → β)
